@@ -68,8 +68,8 @@ Ix3(i, S1, S2, S3, which) == IF which = 1 THEN S1[((i - 1) \div (Len(S2) * Len(S
                              ELSE IF which = 2 THEN S2[(((i - 1) \div Len(S3)) % Len(S2)) + 1]
                              ELSE S3[((i - 1) % Len(S3)) + 1]
 
-FamNames == <<"seq2", "seq3", "alt2", "altseq", "seqalt", "grpq", "grpq2", "ncgq", "ref", "refq", "named", "look", "look2", "lookg", "atom", "anchor", "anchor2", "cond", "condx", "nested", "opti", "optm", "opts", "body3", "body3g", "nlend">>
-FamSizes_def == <<Len(I1_def) * Len(I1_def), Len(I1_def) * Len(I1_def) * Len(Leaves_def), Len(I1_def) * Len(I1_def), Len(I1_def) * Len(I1_def) * Len(Leaves_def), Len(I1_def) * Len(I1_def) * Len(Leaves_def), Len(QBodies_def) * Len(Quants_def) * Len(LeavesE_def), Len(Bodies_def) * Len(Quants_def) * Len(I1_def), Len(NcgBodies_def) * Len(Quants_def) * Len(I1_def), Len(I1_def) * Len(ELeaves_def) * Len(RefTails_def), Len(I1_def) * Len(Quants_def) * Len(Leaves_def), Len(NamedHeads_def) * Len(Leaves_def) * Len(NamedTails_def), Len(Looks_def) * Len(I1_def) * Len(I1_def), Len(Looks_def) * Len(I1_def) * Len(I1_def), Len(Looks_def) * Len(QBodies_def) * Len(LeavesE_def), Len(AtomBodies_def) * Len(I1_def), Len(Anchors_def) * Len(I1_def) * Len(AnchorsE_def), Len(I1_def) * Len(Anchors_def) * Len(LeavesDS_def), Len(Leaves_def) * Len(I1_def) * Len(LeavesE_def), Len(LookLeaves_def) * Len(I1_def) * Len(LeavesE_def), Len(L2Leaves_def) * Len(Quants_def) * Len(Leaves_def), Len(I1_def) * Len(I1_def) * Len(Leaves_def), Len(Anchors_def) * Len(I1_def) * Len(Anchors_def), Len(I1_def) * Len(DotReps_def) * Len(I1_def), Len(Body3_def) * Len(Quants_def) * Len(Tails_def), Len(Body3_def) * Len(Quants_def) * Len(Tails_def), Len(ELeaves_def) * Len(NLLoops_def) * Len(EndAnchors_def)>>
+FamNames == <<"seq2", "seq3", "alt2", "altseq", "seqalt", "grpq", "grpq2", "ncgq", "ref", "refq", "named", "look", "look2", "lookg", "atom", "anchor", "anchor2", "cond", "condx", "nested", "opti", "optm", "opts", "body3", "body3g", "nlend", "atomseq">>
+FamSizes_def == <<Len(I1_def) * Len(I1_def), Len(I1_def) * Len(I1_def) * Len(Leaves_def), Len(I1_def) * Len(I1_def), Len(I1_def) * Len(I1_def) * Len(Leaves_def), Len(I1_def) * Len(I1_def) * Len(Leaves_def), Len(QBodies_def) * Len(Quants_def) * Len(LeavesE_def), Len(Bodies_def) * Len(Quants_def) * Len(I1_def), Len(NcgBodies_def) * Len(Quants_def) * Len(I1_def), Len(I1_def) * Len(ELeaves_def) * Len(RefTails_def), Len(I1_def) * Len(Quants_def) * Len(Leaves_def), Len(NamedHeads_def) * Len(Leaves_def) * Len(NamedTails_def), Len(Looks_def) * Len(I1_def) * Len(I1_def), Len(Looks_def) * Len(I1_def) * Len(I1_def), Len(Looks_def) * Len(QBodies_def) * Len(LeavesE_def), Len(AtomBodies_def) * Len(I1_def), Len(Anchors_def) * Len(I1_def) * Len(AnchorsE_def), Len(I1_def) * Len(Anchors_def) * Len(LeavesDS_def), Len(Leaves_def) * Len(I1_def) * Len(LeavesE_def), Len(LookLeaves_def) * Len(I1_def) * Len(LeavesE_def), Len(L2Leaves_def) * Len(Quants_def) * Len(Leaves_def), Len(I1_def) * Len(I1_def) * Len(Leaves_def), Len(Anchors_def) * Len(I1_def) * Len(Anchors_def), Len(I1_def) * Len(DotReps_def) * Len(I1_def), Len(Body3_def) * Len(Quants_def) * Len(Tails_def), Len(Body3_def) * Len(Quants_def) * Len(Tails_def), Len(ELeaves_def) * Len(NLLoops_def) * Len(EndAnchors_def), Len(QLeaves_def) * Len(Leaves_def) * Len(LeavesE_def)>>
 
 NF == Len(FamNames)
 CumTab_def == [k \in 0..NF |-> LET RECURSIVE Cum(_) Cum(m) == IF m = 0 THEN 0 ELSE Cum(m - 1) + FamSizes_def[m] IN Cum(k)]
@@ -135,6 +135,7 @@ FamTree(k, i) ==
     [] k = 24 -> LET x1 == Ix3(i, Body3, Quants, Tails, 1)  x2 == Ix3(i, Body3, Quants, Tails, 2)  x3 == Ix3(i, Body3, Quants, Tails, 3) IN Cat2(Rep(x1, x2), x3)
     [] k = 25 -> LET x1 == Ix3(i, Body3, Quants, Tails, 1)  x2 == Ix3(i, Body3, Quants, Tails, 2)  x3 == Ix3(i, Body3, Quants, Tails, 3) IN Cat2(Rep(Grp(x1), x2), x3)
     [] k = 26 -> LET x1 == Ix3(i, ELeaves, NLLoops, EndAnchors, 1)  x2 == Ix3(i, ELeaves, NLLoops, EndAnchors, 2)  x3 == Ix3(i, ELeaves, NLLoops, EndAnchors, 3) IN Cat3(x1, x2, x3)
+    [] k = 27 -> LET x1 == Ix3(i, QLeaves, Leaves, LeavesE, 1)  x2 == Ix3(i, QLeaves, Leaves, LeavesE, 2)  x3 == Ix3(i, QLeaves, Leaves, LeavesE, 3) IN Cat2(Un("atom", Cat2(x1, x2)), x3)
 
 NFam == CumTab[NF]
 FamIdx(pid) == CHOOSE k \in 1..NF : CumTab[k - 1] < pid /\ pid <= CumTab[k]
